@@ -68,7 +68,7 @@ finally:
     sh(f"rm -f /tmp/sc/{name}.demo")
 dst = f"/verif/seeded/{name}"
 os.makedirs(dst, exist_ok=True)
-for f in os.listdir(src):
+for f in (os.listdir(src) if os.path.realpath(src) != os.path.realpath(dst) else []):
     if os.path.isfile(os.path.join(src, f)) and not f.endswith((".o",)) and os.path.getsize(os.path.join(src, f)) < 400000 and f not in ("demo",):
         shutil.copy(os.path.join(src, f), os.path.join(dst, f))
 meta = {}
